@@ -51,6 +51,10 @@ void harness (void)
     pixman_implementation_t *g1 = _pixman_implementation_create_general (), *g2 = _pixman_implementation_create_general ();
     VP_ASSUME (g1 && g2);
     pixman_implementation_t *f = _pixman_implementation_create_fast_path (g1); VP_ASSUME (f != NULL);
+#ifdef WITH_SSE2
+    /* chain A = noop -> sse2 -> fast -> general: the level under test is the SSE2 one */
+    f = _pixman_implementation_create_sse2 (f); VP_ASSUME (f != NULL);
+#endif
     pixman_implementation_t *chainA = _pixman_implementation_create_noop (f); VP_ASSUME (chainA != NULL);
     global_implementation = chainA; clear_cache ();
     run (da, s, m);
